@@ -177,12 +177,25 @@ def _limit(mem_gb):
     return f
 
 
+CHILDREN = set()
+
+
+def _kill_children(*_a):
+    for pid in list(CHILDREN):
+        try:
+            os.killpg(pid, 9)
+        except Exception:
+            pass
+    raise SystemExit(143)
+
+
 def run_cmd(cmd, timeout, mem_gb, cwd=None, stdout_path=None):
     """Run with wall/RSS caps. Returns (rc|'timeout', stdout_text, wall, maxrss_kb)."""
     t = time.time()
     out = open(stdout_path, "w") if stdout_path else subprocess.PIPE
     p = subprocess.Popen(cmd, stdout=out, stderr=subprocess.STDOUT, text=True, cwd=cwd,
                          preexec_fn=_limit(mem_gb))
+    CHILDREN.add(p.pid)
     try:
         so, _ = p.communicate(timeout=timeout)
         rc = p.returncode
@@ -193,6 +206,7 @@ def run_cmd(cmd, timeout, mem_gb, cwd=None, stdout_path=None):
             p.kill()
         so, _ = p.communicate()
         rc = "timeout"
+    CHILDREN.discard(p.pid)
     if stdout_path:
         out.close()
         so = None
@@ -639,6 +653,12 @@ def kf_matches(entry, res):
 def run_check(prop, tier, jobs, meta, jobfilter=None, keep=False, workers=None):
     global MEMGATE
     MEMGATE = MemGate(_mem_budget_gb())
+    import signal
+    try:
+        signal.signal(signal.SIGTERM, _kill_children)
+        signal.signal(signal.SIGINT, _kill_children)
+    except ValueError:
+        pass
     seed = int(os.environ.get("VERIF_SEED", "0") or 0)
     ctx = Ctx(prop, tier, keep)
     t0 = time.time()
